@@ -105,10 +105,21 @@ CLAIMED["C16"] = ("model_checking",
     "real time: silent placements cost 15-35 s each (2 in quick, ~60 in thorough, concurrent); number of addressed peers observable only for put_record_to_peers (closest-peer puts demand >= 1 receipt); engine abstracted to the C15 guarantee; the on_connection_established open-substream error window is covered by the model only",
     "DESIGN.md 4/C16, 10")
 
+CLAIMED["C07"] = ("model_checking",
+    "TLA+ monitor ConnLifeNet + implementation-shaped model ConnLifeNetMC (manager loop, connection task incl. error exits, protocol loops over bounded channels, protocol shutdown) checked by TLC; TLC-simulated stimulus schedules and a scenario catalogue run on real two-node litep2p networks over loopback TCP (proxy, perturbing executor); every recorded execution validated by TLC against the monitor",
+    "TLC explores all interleavings of manager, connection task, protocol loops and environment for 1 peer / 2 overlapping connections / 2 protocols + 1 that shuts down / all termination causes and shows the monitor rules hold outside two tagged defect paths (and everywhere once both are repaired); the same monitor validates the application and per-protocol event streams of real node pairs for remote crash, network cut at any byte, force_close, idle expiry, stalled/pending opens, paused protocol, protocol shutdown, simultaneous dials, connect/disconnect cycles and redial probes.",
+    "public API only; ordering from one recorded log + 10 s deadlines with load probe; really full channels only in the model; protocols-before-manager at model level (and by the blocked-call probe of C08)",
+    "DESIGN.md 4/C07, 10")
+CLAIMED["C09"] = ("model_checking",
+    "TLA+ timed monitor KeepAlive + model KeepAliveMC (per-protocol tracker, handles, permits) checked by TLC; one activity schedule per transition of the bounded graph + timing catalogue executed in real time on concurrent real two-node networks (T = 150/400/1000 ms); timed logs validated by TLC",
+    "TLC shows NotBefore / never-while-held-or-opening / closed-by-T for all activity schedules of the bounded model incl. non-keep-alive protocol activity; real networks (single and double connection, with/without ping+identify, local and remote opens, failing opens, opens around expiry) are judged with before/after stamping so NotBefore can only err leniently and Eventually has slack max(1 s, T).",
+    "only A's idle mechanism can close (remote timeout 120 s, no faults); 'activity' = establishing / opening a keep-alive substream (the end of a hold is not counted as activity: the stricter literal reading is reported as a note only)",
+    "DESIGN.md 4/C09, 10")
+
 # harness binaries each claimed property needs (setup builds exactly these)
 BINS = {"C17": ["store"], "C05": ["connmgr", "netdial"], "C06": ["connmgr"], "C10": ["addrbook"],
         "C01": ["noisehs"], "C02": ["noisepipe"], "C03": ["mss"], "C04": ["substream"], "C08": ["svc"], "C13": ["reqresp"],
-        "C14": ["routing"], "C15": ["query"], "C18": ["peerid"], "C19": ["decoders"], "C20": ["bitswap"], "C11": ["notif"], "C12": ["notif"], "C16": ["kadops"]}
+        "C14": ["routing"], "C15": ["query"], "C18": ["peerid"], "C19": ["decoders"], "C20": ["bitswap"], "C11": ["notif"], "C12": ["notif"], "C16": ["kadops"], "C07": ["connlife"], "C09": ["keepalive"]}
 
 NOT_YET = "check not built yet (work in progress, see DESIGN.md build order)"
 NA = {}
